@@ -58,7 +58,8 @@ def run_one(sid, suite, tier, extra_props=()):
             rs = sh("cd {} && env -u DESOLVER_VERIF PYTHONPATH={} /venv/bin/python -m pytest -q -p no:cacheprovider --timeout=900 -n 16 2>&1 | grep -E ' passed| failed' | tail -1".format(wt, wt))
             out["suite"] = rs.stdout.strip()[:120]
         checks = {}
-        for pid in [meta["property"]] + list(extra_props):
+        also = [k for k in meta.get("verification", {}).get("checks", {}) if k != meta["property"]]     # checks run for this seed before
+        for pid in [meta["property"]] + sorted(set(list(extra_props) + also)):
             t = time.time()
             env = dict(os.environ, VERIF_REPO=wt, VERIF_SCRATCH=os.path.join(wt, ".vscratch"))
             p = subprocess.run([os.path.join(HERE, "check"), pid, "--tier", tier], env=env, capture_output=True, text=True)
